@@ -17,6 +17,7 @@ import (
 	"go/parser"
 	"go/token"
 	"path/filepath"
+	"sort"
 	"reflect"
 	"strconv"
 	"strings"
@@ -25,7 +26,6 @@ import (
 const promFile = "middleware/prometheus/prometheus.go"
 
 func init() {
-	anchorSets = append(anchorSets, promhttpAnchors)
 	extraFns = append(extraFns, promExtras, httpExtras)
 }
 
@@ -58,13 +58,46 @@ func phParse(repo string, files map[string]*ast.File, name string) *ast.File {
 	return f
 }
 
-// phGuard runs f and turns a failf into an error string.
+// phFallback: when an anchor can no longer be translated the error is reported (the tie is
+// broken, the check fails) but a neutral definition is still emitted, so that the Coq files
+// keep compiling and the specification oracle can still search for a failing input.
+// name -> {binders and type, value}
+var phFallback = map[string][2]string{
+	"g_prom_recv_labels":    {": list (str * str)", "[]"},
+	"g_prom_send_labels":    {": list (str * str)", "[]"},
+	"g_prom_kind_rule":      {": str * Z", "(([] : str), 0)"},
+	"g_prom_conn":           {": list (str * Z)", "[]"},
+	"g_prom_req_rules":      {": list (str * (Z * (Z * Z)))", "[]"},
+	"g_prom_start_fresh":    {": bool", "false"},
+	"g_prom_end_rule":       {": bool * bool", "(false, false)"},
+	"g_prom_locks":          {": list (str * bool)", "[]"},
+	"g_prom_dispatch":       {": list (str * list str)", "[]"},
+	"g_prom_client_forward": {": Z", "0"},
+	"g_prom_server_forward": {": Z", "0"},
+	"g_mux_route":           {"(upgrade accept : str) (nip11_nil default_nil : bool) : Z * str", "(5, ([] : str))"},
+	"g_nip11_headers":       {": list (str * str)", "[]"},
+	"g_nip11_tags":          {": list (str * list (str * (str * (str * bool))))", "[]"},
+	"g_kind_single":         {"(from to : Z) : bool", "false"},
+	"g_kind_pair_len_bad":   {"(len : Z) : bool", "false"},
+	"g_nip11_bad_accept":    {"(accept : str) : bool", "false"},
+}
+
+func phFallbackFor(name, msg string) (matched, bool) {
+	fb, ok := phFallback[name]
+	if !ok {
+		return matched{}, false
+	}
+	return matched{name, "-", "-", 0, "TIE BROKEN, neutral fallback: " + safeGo(msg),
+		fmt.Sprintf("Definition %s %s :=\n  %s.", name, fb[0], fb[1])}, true
+}
+
+// phGuard runs f and turns a failf into an error string (plus the fallback definition).
 func phGuard(name string, errs *[]string, f func() matched) (m matched, ok bool) {
 	defer func() {
 		if r := recover(); r != nil {
 			if fl, isf := r.(failure); isf {
 				*errs = append(*errs, fmt.Sprintf("anchor %s: %s", name, fl.msg))
-				ok = false
+				m, ok = phFallbackFor(name, fl.msg)
 				return
 			}
 			panic(r)
@@ -232,7 +265,7 @@ func reqRule(body []ast.Stmt) string {
 		}
 		if is, ok := s.(*ast.IfStmt); ok {
 			if guard != -1 {
-				failf("more than one guarded block in a rule")
+				failf("more than one guarded block in a rule, or operations before the guard")
 			}
 			if is.Init == nil || pr(is.Init) != "_, ok := c.m[reqID][msg.SubscriptionID]" || is.Else != nil {
 				failf("unsupported guard %q", pr(is))
@@ -248,7 +281,7 @@ func reqRule(body []ast.Stmt) string {
 			ops(is.Body.List)
 			continue
 		}
-		if guard != -1 {
+		if guard != -1 && guard != 2 {
 			failf("operation %q beside a guarded block", pr(s))
 		}
 		guard = 2
@@ -363,7 +396,14 @@ func promExtras(repo string, files map[string]*ast.File) (map[string][]matched, 
 	var out []matched
 	var f *ast.File
 	if _, ok := phGuard("GenProm", &errs, func() matched { f = phParse(repo, files, promFile); return matched{} }); !ok {
-		return nil, errs
+		for name := range phFallback {
+			if strings.HasPrefix(name, "g_prom_") {
+				m, _ := phFallbackFor(name, "prometheus.go does not parse")
+				out = append(out, m)
+			}
+		}
+		sort.Slice(out, func(i, j int) bool { return out[i].Name < out[j].Name })
+		return map[string][]matched{"GenProm": out}, errs
 	}
 	add := func(name, recv, fn, ty string, body func(fd *ast.FuncDecl) string) {
 		m, ok := phGuard(name, &errs, func() matched {
@@ -668,6 +708,19 @@ var nip11Structs = []string{"NIP11", "NIP11Limitation", "NIP11Retention", "NIP11
 func httpExtras(repo string, files map[string]*ast.File) (map[string][]matched, []string) {
 	var errs []string
 	var out []matched
+
+	// ordinary if-conditions, through the shared expression translator
+	for _, a := range promhttpAnchors() {
+		mm, err := translate(repo, a, files)
+		if err != nil {
+			errs = append(errs, err.Error())
+			var ok bool
+			if mm, ok = phFallbackFor(a.Name, err.Error()); !ok {
+				continue
+			}
+		}
+		out = append(out, mm)
+	}
 
 	m, ok := phGuard("g_mux_route", &errs, func() matched {
 		f := phParse(repo, files, "server.go")
